@@ -33,6 +33,11 @@ macro_rules! ops {
                 let b = parse_bytes(a[0]);
                 match std::str::from_utf8(&b) { Ok(s) => Some(pres(<$T as FromStr>::from_str(s))), Err(_) => Some("bad-utf8".into()) }
             }
+            // `str::parse::<T>()` (the other spelling of `FromStr`)
+            "str_parse" => {
+                let b = parse_bytes(a[0]);
+                match std::str::from_utf8(&b) { Ok(s) => Some(pres(s.parse::<$T>())), Err(_) => Some("bad-utf8".into()) }
+            }
             "parse_bytes" => Some(<$T>::parse_bytes(&parse_bytes(a[1]), parse_u32(a[0])).out()),
             "from_radix_be" => Some(<$T>::from_radix_be(&parse_bytes(a[1]), parse_u32(a[0])).out()),
             "from_radix_le" => Some(<$T>::from_radix_le(&parse_bytes(a[1]), parse_u32(a[0])).out()),
